@@ -13,6 +13,6 @@ LEVEL_TEXT = ("Deductive kernel: Broker.rebalance's postconditions (recorded pre
 EXPLANATION = LEVEL_TEXT
 NOT_DEDUCTIVE = ["the pandas accessors of TrackRecord: bounded shell only (TrackRecord._checkpoint/__getitem__ are verified against concrete contracts; their abstraction at call sites is argued)",
                  "strictly increasing record stamps on bar-shaped data (lemma stamps_increasing): argued from the clock contract; observed by the shell"]
-EXTRA_ASSUMPTIONS = ["ASSUMED contracts: TradingEnv._process_*_events, notify, IState.__call__"]
+EXTRA_ASSUMPTIONS = ["ASSUMED contracts: IState.__call__, Transmitter._next; input assumption of TradingEnv._process_*_events: delivered quotes stay within the property's quantifier (0 < bid <= ask, cash 1/1, rate quoted)"]
 
 USES_SUM_LEMMAS = True
